@@ -1031,7 +1031,10 @@ impl Translator {
                         arm_labels.push((arm_label.clone(), arm.clone()));
 
                         // duplicate the scrutinee before doing a comparison
-                        self.emit(st, Instr::Duplicate);
+                        // (a void scrutinee occupies no stack slot: there is nothing to duplicate)
+                        if ty != SolvedType::Void {
+                            self.emit(st, Instr::Duplicate);
+                        }
                         self.translate_pat_comparison(
                             &ty,
                             &arm.pat,
